@@ -243,6 +243,13 @@ func (pv *prover) site(in ssa.Instruction) (kind, desc string, ok bool, how stri
 		if pv.typeSwitchGuard(x) {
 			return "type assertion", desc, true, "G7"
 		}
+		// library contract: proto.Clone(m) returns a message of m's concrete type
+		if c, isCall := canon(x.X).(*ssa.Call); isCall && c.Call.StaticCallee() != nil && c.Call.StaticCallee().Name() == "Clone" &&
+			c.Call.StaticCallee().Pkg != nil && c.Call.StaticCallee().Pkg.Pkg.Path() == "google.golang.org/protobuf/proto" && len(c.Call.Args) == 1 {
+			if arg := canon(c.Call.Args[0]); !types.IsInterface(arg.Type()) && types.Identical(arg.Type(), x.AssertedType) {
+				return "type assertion", desc, true, "G9 proto.Clone returns its argument's concrete type"
+			}
+		}
 		return "type assertion", desc, false, ""
 	case *ssa.BinOp:
 		if x.Op != token.QUO && x.Op != token.REM {
